@@ -446,7 +446,7 @@ fn common(ctx: &Ctx, property: &'static str, rule: &str, floors: &[(&str, u64)],
     rep.assume("reference model executes the documented meaning (docs comments of rbx_dom_weak::WeakDom) and learns fresh referents / regenerated ids from the real DOM by structural correspondence");
     let sub = crate::engine::replay_subcheck_or_all(ctx);
     if sub.runs("histories") {
-        let cases = ctx.cfg.cases(50_000, 1_500_000);
+        let cases = ctx.cfg.cases(50_000, 600_000);
         let max_ops = ctx.cfg.tier.pick(25, 60);
         let mut r = ctx.run_prop(
             "histories",
